@@ -2,8 +2,12 @@
 The write behaviour of every sub-command on the abstract file system (C15).
 
 * `annotate` — `Model/AnnotateCmd.lean`.
-* `convert-dep5` (src/reuse/cli/convert_dep5.py): refuse without `.reuse/dep5`
-  (or when the project cannot be loaded because `REUSE.toml` exists as well),
+* `convert-dep5` (src/reuse/cli/convert_dep5.py): refuse without `.reuse/dep5`,
+  and refuse when anything named `REUSE.toml` exists in the root — a regular file
+  (the project cannot even be loaded: conflict), but also a symbolic link (live or
+  dangling), a directory, or a file the VCS ignores, none of which the project
+  reads (`fs tomlPath = none` below is "no node of any kind"; the code's explicit
+  `is_symlink() or exists()` test, fixes/convert-dep5-toml-symlink.diff) —
   else `write_text(REUSE.toml)` then `unlink(.reuse/dep5)`.
 * `download` (src/reuse/cli/download.py, src/reuse/download.py): for every
   requested identifier `parent.mkdir(exist_ok=True)`, refuse an existing
